@@ -553,7 +553,7 @@ func sizeClass(n int) string {
 }
 
 func runHandlerCases(r *mon.Run, zstd0Safe bool) {
-	n := r.N(1200, 150_000)
+	n := r.N(1200, 30_000)
 	big := r.N(2<<20, 3<<20)
 	mon.Parallel(n, 0, func(i int) {
 		ci := baseHandler + i
@@ -848,7 +848,8 @@ func pickLevel(rnd *rand.Rand, codec string) int {
 }
 
 func runRoundTrips(r *mon.Run, zstd0Safe bool) {
-	n := r.N(1000, 150_000)
+	n := r.N(1000, 25_000)
+	nMulti := r.N(32, 400)
 	big := r.N(2<<20, 4<<20)
 	mon.Parallel(n, 0, func(i int) {
 		ci := baseRoundTrip + i
@@ -860,10 +861,21 @@ func runRoundTrips(r *mon.Run, zstd0Safe bool) {
 		api := rnd.Intn(nAPIs)
 		level := pickLevel(rnd, codec)
 		size := genSize(rnd, big)
+		if i < nMulti {
+			// targeted sub-family: one Write of a multi-block input through stackless.Writer
+			// (encoders that finish blocks asynchronously must not lose them)
+			codec, api = codecs[3-(i%8)/6*(1+i%3)], apiWritePlain // 3 of 4 are zstd
+			level = []int{1, 2, 3}[rnd.Intn(3)]
+			size = 1<<20 + rnd.Intn(1<<20)
+		}
 		if codec == "br" && level >= 6 && size > 200_000 && rnd.Intn(20) != 0 {
 			size = rnd.Intn(200_000) // brotli 6+ is very slow on MiB inputs; the budget, not the property, limits this
 		}
 		src, kind := genBody(rnd, size)
+		if i < nMulti {
+			rnd.Read(src)
+			kind = "random"
+		}
 		prefix := make([]byte, rnd.Intn(3)*rnd.Intn(9))
 		rnd.Read(prefix)
 		if codec == "zstd" && level == 0 && api != apiAppendDefault && !zstd0Safe {
